@@ -99,12 +99,14 @@ func errImportOutsideModule(importPath string) error {
 	return fmt.Errorf("import path can not be pointing outside of the script's module directory: %s", importPath)
 }
 
-// isInside reports whether p is dir or lies below it. It is applied to the
-// final path, after all trimming and cleaning, so that no spelling of an import
-// (whitespace-padded absolute paths, " ../x") can leave the directory.
+// isInside reports whether p lies below dir. It is applied to the final path,
+// after all trimming and cleaning, so that no spelling of an import
+// (whitespace-padded absolute paths, " ../x") can leave the directory. dir
+// itself does not count: an import that resolves to the directory would read
+// "<dir>.arrai", a file next to the directory, not in it.
 func isInside(dir, p string) bool {
 	rel, err := filepath.Rel(dir, p)
-	return err == nil && rel != ".." && !strings.HasPrefix(rel, ".."+string(filepath.Separator))
+	return err == nil && rel != "." && rel != ".." && !strings.HasPrefix(rel, ".."+string(filepath.Separator))
 }
 
 type externalImportErr struct {
